@@ -14,7 +14,7 @@ From Coq Require Import ZArith List Bool String Sorting.Sorted.
 From KV Require Import Base.Sx Base.Str Base.SelSlice Gen.Generated Model.Select Model.Scans
   Proofs.SelectBaseP Proofs.SelectP Proofs.SelectLawsP Proofs.ScansP.
 From KV Require Model.Categorical Proofs.ScansSegP Model.ScansConcat Proofs.ScansConcatP Proofs.ScansPipeP Proofs.ScansNamesP
-  Proofs.ScansBodyP Proofs.ScansOrderP.
+  Proofs.ScansBodyP Proofs.ScansOrderP Proofs.ScansTotalP.
 Import ListNotations.
 Open Scope Z_scope.
 
@@ -164,6 +164,22 @@ Proof.
   split; [intro ts; exact (ScansNamesP.seg_dumps N g ts SG) | intros o w; exact (ScansNamesP.seg_names_ok N g o w HN SG)].
 Qed.
 Print Assumptions C03_every_dump_once.
+
+(* THE PIPELINES NEVER FAIL on such inputs (no IndexError / ValueError from align, add, remove_repeats, the _lookup
+   calls of the initial-stop loop): the hypothesis `segment ... = Some g` of C03_every_dump_once is always met *)
+Theorem C03_pipeline_total : forall f P (act label target : cdz) N, (0 < N)%nat ->
+  ScansPipeP.good N act -> ScansPipeP.good N label -> ScansPipeP.good N target ->
+  exists g, segment f P act label target = Some g.
+Proof. exact ScansTotalP.segment_total. Qed.
+Print Assumptions C03_pipeline_total.
+
+Theorem C03_pipeline_total_v1 : forall states groups labels targets segs N, (0 < N)%nat ->
+  Categorical.incr segs -> hd 0%nat segs = 0%nat -> last segs 0%nat = N ->
+  List.length segs = S (List.length states) -> List.length groups = List.length states ->
+  List.length labels = List.length states -> List.length targets = List.length states ->
+  exists g, segment_v1 states groups labels targets segs = Some g.
+Proof. exact ScansTotalP.segment_v1_total. Qed.
+Print Assumptions C03_pipeline_total_v1.
 
 (* what seg_good says, field by field (definitional unfolding, so that the statement above can be read here) *)
 Theorem C03_seg_good_means : forall N g, ScansPipeP.seg_good N g ->
